@@ -28,8 +28,10 @@ CLAIM = dict(
     ref="DESIGN.md §3 C29")
 
 
-def lam_ret(P, e):
-    """Text of the single `return <expr>` of a lambda expression, or None."""
+def lam_ret(P, e, fn=None):
+    """Text of the single `return <expr>` of a lambda expression (or of a named lambda held by a single-definition local), or None."""
+    if fn is not None:
+        e = resolve_lambda(fn, e)
     if not (is_expr(e) and e[0] == "lambda"):
         return None
     fs = P.fns(e[1])
@@ -82,7 +84,7 @@ def _wellformed(ctx, P):
     okw = False
     for s in accs:
         a = call_args(s.expr)
-        lr = lam_ret(P, a[3]) if len(a) >= 4 else None
+        lr = lam_ret(P, a[3], f) if len(a) >= 4 else None
         if lr and [show(a[0]), show(a[1])] == ["txns.cbegin()", "txns.cend()"] and match(["int", 0], a[2]):
             body, ps = lr
             okw = len(ps) == 2 and body in ("%s + GetTransactionWeight(*%s)" % (ps[0], ps[1]), "GetTransactionWeight(*%s) + %s" % (ps[1], ps[0]))
@@ -104,7 +106,7 @@ def _wellformed(ctx, P):
         if not is_call_to("std::transform", e):
             return False
         a = call_args(e)
-        lr = lam_ret(P, a[3]) if len(a) >= 4 else None
+        lr = lam_ret(P, a[3], f) if len(a) >= 4 else None
         return bool(lr) and [show(a[0]), show(a[1])] == ["txns.cbegin()", "txns.cend()"] and is_call_to("std::inserter", a[2]) and \
             match(["local", S], call_args(a[2])[0]) and lr[0] == "%s.GetHash()" % lr[1][0]
 
@@ -182,7 +184,7 @@ def _consistent(ctx, P):
         if not is_call_to("std::transform", e):
             return False
         a = call_args(e)
-        lr = lam_ret(P, a[3]) if len(a) >= 4 else None
+        lr = lam_ret(P, a[3], f) if len(a) >= 4 else None
         return bool(lr) and is_call_to("std::inserter", a[2]) and match(["local", S], call_args(a[2])[0]) and lr[0] == "%s.prevout" % lr[1][0]
 
     rec = [s for s in sites(f, records, P) if s.loops and s.loops[-1] is outer]
@@ -218,7 +220,7 @@ def _child_with_parents(ctx, P):
     alls = [s for s in sites(f, call_to("std::all_of"), P) if allre.fullmatch(xkey(s.expr, sub))]
     okp, S = False, None
     for s in alls:
-        lr = lam_ret(P, call_args(s.expr)[2])
+        lr = lam_ret(P, call_args(s.expr)[2], f)
         if lr:
             m = re.fullmatch(r"(\w+)\.contains\(%s\.GetHash\(\)\)" % re.escape(lr[1][0]), lr[0])
             if m:
@@ -231,7 +233,7 @@ def _child_with_parents(ctx, P):
         if not is_call_to("std::transform", e):
             return False
         a = call_args(e)
-        lr = lam_ret(P, a[3]) if len(a) >= 4 else None
+        lr = lam_ret(P, a[3], f) if len(a) >= 4 else None
         return bool(lr) and [xkey(a[0], sub), xkey(a[1], sub)] == ["package.back().vin.cbegin()", "package.back().vin.cend()"] and \
             is_call_to("std::inserter", a[2]) and match(["local", S], call_args(a[2])[0]) and lr[0] == "%s.prevout.hash" % lr[1][0]
 
